@@ -422,7 +422,12 @@ def _hook(ev, args):
         elif ev == "open":
             _audit["events"].append("open:%s" % (args[0] if args else "?",))
         elif ev == "compile":
-            # traceback formatting reads source lines through linecache, never compiles; anything here is unexpected
+            # CPython's traceback module parses the failing source line (ast.parse) to place the ^^^ markers: benign, recognised by its caller
+            f = sys._getframe(1)
+            while f is not None:
+                if f.f_code.co_filename.endswith("traceback.py"):
+                    return
+                f = f.f_back
             _audit["events"].append("compile")
         else:
             _audit["events"].append(ev)
@@ -562,8 +567,10 @@ UNI = ["exposé", "exposed_é", "еxposed_get", "exposed_get\x00", "\ud800", "EX
 PLAIN_VALUES = [0, 1, -1, 5, 255, 2**70, True, False, None, "", "a", "text", b"", b"bytes", (), (1, 2), (1, (2, "x")), 1.5, 0.0, frozenset(), slice(1, 2, 3)]
 
 
-def gen_aval(r, n_objs, allow_x=True):
+def gen_aval(r, n_objs, allow_x=True, allow_none=True):
     c = r.random()
+    if not allow_none:
+        c = c * 0.85
     if c < 0.35:
         return ["v", T(r.choice(PLAIN_VALUES))]
     if c < 0.85:
@@ -587,14 +594,14 @@ def gen_world(r):
         for _ in range(r.choice([0, 1, 2, 3, 4, 6])):
             nm = r.choice(pool) if r.random() < 0.9 else r.choice(UNI[:3])
             if nm not in [a[0] for a in attrs]:
-                attrs.append([nm, gen_aval(r, n, allow_x=r.random() < 0.5)])
+                attrs.append([nm, gen_aval(r, n, allow_x=False, allow_none=False)])   # hasattr == membership (C06's abstraction)
         if i == 0:
             for nm in ("exposed_get", "exposed_obj", "secret"):
                 if nm not in [a[0] for a in attrs]:
                     attrs.append([nm, ["o", r.randrange(n)]])
         d = {"cls": cls, "type": (n_inst + r.randrange(n_cls)) if not cls else n, "attrs": attrs, "hooks": [0, 0, 0], "ihooks": [0, 0, 0],
              "hookres": gen_aval(r, n), "call": gen_aval(r, n) if r.random() < 0.6 else ["none"],
-             "iter": [gen_aval(r, n, allow_x=False) for _ in range(r.choice([0, 1, 2, 3, 5]))] if r.random() < 0.5 else None,
+             "iter": [gen_aval(r, n, allow_x=False, allow_none=False) for _ in range(r.choice([0, 1, 2, 3, 5]))] if r.random() < 0.5 else None,
              "repr": "<canary %d>" % i, "str": "canary-%d" % i, "hash": ["v", T(r.choice([i, 7, 2**40]))] if r.random() < 0.8 else ["none"],
              "dir": sorted(set(r.sample(PLAIN_NAMES + EXPOSED_NAMES, r.randint(0, 3)))), "bool": r.random() < 0.7}
         if cls and r.random() < 0.2:
@@ -656,6 +663,7 @@ class Gen(object):
         self.n = len(descs) - 1            # without META
         self.lent = [0]                    # indices the peer probably holds by now
         self.fresh = 0
+        self.late = False
 
     # ---- pieces
     def ref_idx(self):
@@ -791,6 +799,8 @@ class Gen(object):
     def request(self):
         r = self.r
         hname = r.choice(list(R.H))
+        if hname == "CLOSE" and not (self.late and r.random() < 0.5):
+            hname = r.choice(["GETATTR", "CALLATTR", "CALL", "CMP"])
         h = R.H[hname]
         ans = []
         tidx = self.ref_idx()
@@ -885,6 +895,8 @@ class Gen(object):
             return {"m": ["tuple", [T(2), self.seq(), t]], "answers": a, "what": "reply"}
         if c < 0.6:
             return {"m": ["tuple", [T(3), self.seq(), self.exc_payload()]], "answers": [], "what": "exception"}
+        if not self.late:
+            return self.request()
         if c < 0.8:
             t, a = self.target()
             return {"m": ["tuple", [T(r.choice([0, 4, -1, 99, None, "1", (1,), 2.5, b"\x01"])), self.seq(), t]], "answers": a, "what": "badkind"}
@@ -894,7 +906,8 @@ class Gen(object):
     def session(self, nmsg):
         r = self.r
         msgs = [{"m": ["tuple", [T(1), T(r.randrange(100)), ["tuple", [T(R.H["GETROOT"]), TT([])]]]], "answers": [], "what": "request:GETROOT"}]
-        for _ in range(nmsg - 1):
+        for i in range(nmsg - 1):
+            self.late = i >= (nmsg - 1) * 0.75 or r.random() < 0.1
             m = self.request() if r.random() < 0.9 else self.other()
             msgs.append(m)
         return msgs
@@ -972,9 +985,9 @@ def exc_class_of(e):
         return "std:UnicodeError"
     if type(e).__module__ == "builtins" and n in STD:
         return "std:" + n
-    if isinstance(e, KeyboardInterrupt):
+    if type(e) is KeyboardInterrupt:
         return "kbd"
-    if isinstance(e, SystemExit):
+    if type(e) is SystemExit:
         return "sysexit"
     if not isinstance(e, Exception):
         return "base"
@@ -1066,11 +1079,22 @@ class Session(object):
 def oracle(ctx, sess, case, k, msg, obs, noise):
     w = sess.world
     real = obs["real"]
+    if obs["dead"]:
+        return "dead"
 
     def bad(sig, what, observed=None, expected=None):
         ctx.violation(sig, {"world": case["world"], "msgs": case["msgs"][:k + 1]}, observed=observed, expected=expected, what=what)
 
-    is_request = isinstance(real, tuple) and len(real) == 3 and isinstance(real[0], (int, float, complex)) and real[0] == 1
+    try:
+        k0, s0, a0 = real               # msg, seq, args = brine.load(data): any 3-element iterable
+        triple = (k0, s0, a0)
+    except Exception:
+        triple = None
+    if isinstance(real, frozenset):
+        triple = None                   # iteration order of a frozenset is the interpreter's: the oracle does not guess which element is the kind
+    is_request = triple is not None and isinstance(triple[0], (int, float, complex)) and triple[0] == 1
+    if is_request:
+        real = triple
     hname = "?"
     if is_request:
         try:
@@ -1138,7 +1162,7 @@ def oracle(ctx, sess, case, k, msg, obs, noise):
                     observed=[repr(a[:2]) for a in answers], expected=repr(real[1]))
         elif len(answers) > 1:
             bad("request-answered-twice:%s" % hname, "more than one answer", observed=[repr(a[:2]) for a in answers], expected="at most one")
-    elif not is_request and answers:
+    elif not is_request and answers and not isinstance(obs["real"], frozenset):
         bad("non-request-answered", "something that is not a request was answered", observed=[repr(a[:2]) for a in answers], expected="ignored or connection ends")
     if obs["ended"] is not None and not obs["closed"]:
         bad("ended-but-open", "an exception left serve() and the connection is still open", observed=repr(obs["ended"]), expected="closed")
@@ -1193,6 +1217,8 @@ def model_log(events, world):
                 continue
             if op == "isinstance" and not cls:
                 continue
+            if op == "funcstr" and not cls:
+                out.append((e[1], "op:str"))        # no __qualname__ on an instance: CPython falls back to str(callee)
             if op in LOGMAP:
                 out.append((e[1], LOGMAP[op]))
         elif tag == "ask":
@@ -1200,11 +1226,13 @@ def model_log(events, world):
     return out, asks
 
 
-def impl_log(log, noise):
+def impl_log(log, noise, meta):
     out = []
     for idx, what in log:
-        if what == "yield" or idx == "META":
+        if what == "yield":
             continue
+        if idx == "META":
+            idx = meta
         kind, _, nm = what.partition(":")
         if kind == "getattr" and nm in noise:
             continue
@@ -1258,7 +1286,7 @@ def compare(ctx, sess, case, k, msg, obs, mres, noise, hname):
         ok = False
     # canary log
     ml, masks = model_log(events, w)
-    il = impl_log(obs["log"], noise)
+    il = impl_log(obs["log"], noise, len(w.descs) - 1)
     if ml != il:
         ctx.tie_broken("correspondence:canary-log", "%s: model %r impl %r" % (where, ml, il))
         ok = False
@@ -1442,7 +1470,8 @@ def run(ctx):
                                   "message in its session context; distinct by (world, message, answers).")
     jobs = [] if model is not None else None
     cases = special_cases(r)
-    n = 400 if ctx.quick else 12000
+    import os
+    n = int(os.environ.get("C07_SESSIONS", "0")) or (400 if ctx.quick else 12000)
     for i in range(n):
         cases.append(gen_case(r, "s%d" % i, ctx.quick))
     for case in cases:
